@@ -62,7 +62,7 @@ func (rp *replayer) build(set string, ov *overlayInfo) string {
 		pkgDir = filepath.Join(repoDir, "zzverif", rp.d.cfg.Package)
 	}
 	for vpath, content := range ov.files {
-		if strings.Contains(vpath, "/zzverif/model/") {
+		if strings.Contains(vpath, "/zzverif/model/") || strings.Contains(vpath, "/zzverif/modelzip/") {
 			continue
 		}
 		n++
